@@ -124,6 +124,37 @@ func RunStreamSession(source string, gInputs, eInputs []string, otf OTFactory, r
 		return res
 	}
 	res.InputSizes = sizes
+	runStreamPair(res, func(cg *p2p.Conn, gOT ot.OT) (circuit.IO, []*big.Int, error) {
+		params := StreamParams(rand)
+		defer params.Close()
+		return compiler.New(params).Stream(cg, gOT, "{data}", strings.NewReader(source), gInputs, sizes)
+	}, eInputs, otf, d, deadline)
+	return res
+}
+
+// RunStreamProgram runs a streaming session for an already compiled SSA
+// program (ssa.Program.Stream directly), e.g. one obtained from CompileSSA
+// whose Steps the caller has edited (used to attribute a mismatch to specific
+// `gc` instructions).  The program must not have been streamed before.
+func RunStreamProgram(prog *ssa.Program, gInputs, eInputs []string, otf OTFactory, rand io.Reader, d *Duplex,
+	deadline time.Duration) *StreamResult {
+
+	res := &StreamResult{}
+	runStreamPair(res, func(cg *p2p.Conn, gOT ot.OT) (circuit.IO, []*big.Int, error) {
+		params := StreamParams(rand)
+		defer params.Close()
+		input, err := prog.Inputs[0].Parse(gInputs)
+		if err != nil {
+			return nil, nil, err
+		}
+		return prog.Stream(cg, gOT, params, input, circuit.NewTiming())
+	}, eInputs, otf, d, deadline)
+	return res
+}
+
+func runStreamPair(res *StreamResult, garbler func(cg *p2p.Conn, gOT ot.OT) (circuit.IO, []*big.Int, error),
+	eInputs []string, otf OTFactory, d *Duplex, deadline time.Duration) {
+
 	if otf == nil {
 		otf = IdealOTFactory
 	}
@@ -140,10 +171,7 @@ func RunStreamSession(source string, gInputs, eInputs []string, otf OTFactory, r
 				d.Close()
 			}
 		}()
-		params := StreamParams(rand)
-		defer params.Close()
-		res.GOut, res.GRes, res.GErr = compiler.New(params).Stream(cg, gOT, "{data}", strings.NewReader(source),
-			gInputs, sizes)
+		res.GOut, res.GRes, res.GErr = garbler(cg, gOT)
 		if res.GErr != nil {
 			d.Close()
 		}
@@ -179,13 +207,15 @@ func RunStreamSession(source string, gInputs, eInputs []string, otf OTFactory, r
 				case <-edone:
 					edone = nil
 				case <-t2:
-					return res
+					return
 				}
 			}
-			return res
+			return
 		}
 	}
-	return res
+	// both parties are done: stop the connections' writer goroutines
+	cg.Close()
+	ce.Close()
 }
 
 // WholeResult is the whole-circuit reference outcome.
@@ -234,7 +264,25 @@ func StreamReference(source string, gInputs, eInputs []string) (w *WholeResult) 
 		return
 	}
 	w.Out = circ.Outputs
-	w.Res, w.Err = circ.Compute([]*big.Int{x, y})
+	// Circuit.Compute wants one value per flattened (compound) argument.
+	var flat []*big.Int
+	for i, v := range []*big.Int{x, y} {
+		arg := circ.Inputs[i]
+		if len(arg.Compound) == 0 {
+			flat = append(flat, v)
+			continue
+		}
+		ofs := 0
+		for _, c := range arg.Compound {
+			part := new(big.Int)
+			for b := 0; b < int(c.Type.Bits); b++ {
+				part.SetBit(part, b, v.Bit(ofs+b))
+			}
+			ofs += int(c.Type.Bits)
+			flat = append(flat, part)
+		}
+	}
+	w.Res, w.Err = circ.Compute(flat)
 	return
 }
 
